@@ -38,7 +38,7 @@ REGEX_FILES = {
     'C18': ['markdown/util.py', 'markdown/postprocessors.py'],
 }
 
-add('C01', ['C01Spec', 'C01', 'C01b', 'C01c', 'C01d', 'C01e', 'C01f', 'C01g'], ['corr.doc'] + PIPE,
+add('C01', ['C01Spec', 'C01', 'C01b', 'C01c', 'C01d', 'C01e', 'C01f', 'C01g', 'C01h'], ['corr.doc'] + PIPE,
     'Lean 4: specification `spec : Doc → html` of the construct grammar + print; theorems on the pipeline model for sub-grammars; spec and model both tied to the implementation by correspondence',
     'PARTIAL: the print-then-parse theorem is proved only for the sub-grammar named in Props/C01*.lean; for the rest of the grammar the Lean `spec` is compared with the implementation by correspondence and search only.')
 add('C02', ['C02Block', 'C02Inline', 'C02X', 'C02Big'], PIPE + ['corr.extract', 'corr.code', 'corr.attrlist', 'corr.pipelinex'],
